@@ -61,7 +61,12 @@
 //!   twice, not-run, order, stray-cleanup (cleanups exactly once, descendants first, nothing else),
 //!   not-disposed, frame, stale-resolves (handles), zombie-effect, ctx-survives-cleanup / ctx-wrong
 //!   (nearest *current* provider), leak (at `end`), arena-len (only with `--cfg leptos_verif`),
-//!   watch-handler-unowned / owner-lost (something is created for a scope while no owner is current).
+//!   watch-handler-unowned / owner-lost (something is created for a scope while no owner is current),
+//!   zombie-task (a task spawned with cancellation runs a segment after the generation of the scope that
+//!   spawned it was released), imm-reruns-after-dispose (F-C08-3: an immediate effect disposed while it was
+//!   running is run again; any other effect that runs after its disposal is a zombie-effect).
+//! An `Owner` captured by a scoped task's future stays alive until that future is dropped (`pins`): the
+//! release of such a scope is booked when its last holder goes.
 use hx_common::*;
 use reactive_graph::{
     computed::{ArcMemo, AsyncDerived, Memo, ScopedFuture},
@@ -1673,7 +1678,27 @@ fn begin_op() {
     });
 }
 
+static PROGRESS: std::sync::atomic::AtomicU64 = std::sync::atomic::AtomicU64::new(0);
+
+/// the library takes locks re-entrantly only when it is broken (e.g. an arena value whose destructor drops
+/// an owner that still has nodes, inside `Arena::with_mut`): a blocked harness must not stall the check
+fn watchdog() {
+    std::thread::spawn(|| {
+        let mut last = u64::MAX;
+        loop {
+            std::thread::sleep(std::time::Duration::from_secs(20));
+            let now = PROGRESS.load(std::sync::atomic::Ordering::Relaxed);
+            if now == last {
+                eprintln!("hx-c08: no op line completed for 20 s (the implementation is blocked, line #{now}): giving up");
+                std::process::exit(3);
+            }
+            last = now;
+        }
+    });
+}
+
 fn run_line(line: &str) -> String {
+    PROGRESS.fetch_add(1, std::sync::atomic::Ordering::Relaxed);
     let words: Vec<&str> = line.split_whitespace().collect();
     if let ["case", n] = words.as_slice() {
         reset_case();
@@ -2132,6 +2157,7 @@ fn gen_exhaustive(len: usize, limit: usize) -> Vec<Vec<String>> {
 fn main() {
     quiet_panics();
     sched::install();
+    watchdog();
     match parse_cli() {
         Cmd::Gen { seed, n, ops, tier } => {
             let mut rng = Rng::new(seed);
